@@ -39,7 +39,8 @@ VARIABLES case, i, verdict
 vars == <<case, i, verdict>>
 
 -----------------------------------------------------------------------------
-RelTol == [ default |-> <<1, 1000>>, r100 |-> <<1, 100>>, rmil |-> <<1, 1000000>>, r5 |-> <<1, 20>> ]
+\* "default": no relative tolerance is stated (0.1%); "r0": the relative tolerance zero is stated explicitly
+RelTol == [ default |-> <<1, 1000>>, r100 |-> <<1, 100>>, rmil |-> <<1, 1000000>>, r5 |-> <<1, 20>>, r0 |-> <<0, 1>> ]
 AbsTol == [ none |-> -1, a1 |-> 1000, a50 |-> 50000, a0 |-> 0 ]          \* ticks; -1: not given
 
 Len1 == BaseDim("L")   Tim1 == BaseDim("T")
